@@ -343,7 +343,24 @@ def fm_feasible(cons, want_model=False, limit=4000):
     atoms = sorted(atoms, key=show)
     history = []
     cur = rows
-    for a in atoms:
+    remaining = list(atoms)
+    work = 0
+    while remaining:
+        # greedy elimination order: the atom producing the fewest combinations first
+        best = None
+        for cand in remaining:
+            np_ = sum(1 for r in cur if r[0].get(cand, 0) > 0)
+            nn_ = sum(1 for r in cur if r[0].get(cand, 0) < 0)
+            cost = np_ * nn_
+            if best is None or cost < best[0]:
+                best = (cost, cand)
+                if cost == 0:
+                    break
+        a = best[1]
+        remaining.remove(a)
+        work += best[0]
+        if best[0] > 20000 or work > 120000:
+            return (True, None)  # give up: treat as possibly feasible
         pos = [r for r in cur if r[0].get(a, 0) > 0]
         neg = [r for r in cur if r[0].get(a, 0) < 0]
         rest = [r for r in cur if r[0].get(a, 0) == 0]
@@ -481,3 +498,25 @@ def entails(facts, goal, extra_axioms=(), want_model=False):
     if DROPPED[0]:
         return ("unknown", "non-linear literal weakened; counter-model not trustworthy")
     return ("refutable", model)
+
+
+# ---------------------------------------------------------------------------- gamma lemma (installed into terms.gamma)
+def _gamma_len_lemma(c, a, b):
+    """γ(bool(x), A, B) == A when x is a byte string and A - B == len(x): bool(x) is false exactly when
+    len(x) == 0, in which case A == B.  (PusTmSecondaryHeader.header_size and similar `if self.x:` idioms.)"""
+    x = c.a[1]
+    if not (x.k in ("slice", "bcat") or x.ty in ("bytes", "bytearray")):
+        return None
+    if not (_numeric(a) and _numeric(b)):
+        return None
+    try:
+        d = linearize(a) - linearize(b)
+        if d.key() == linearize(length(x)).key():
+            return a
+    except Exception:
+        return None
+    return None
+
+
+from . import terms as _terms
+_terms.GAMMA_HOOK[0] = _gamma_len_lemma
